@@ -47,16 +47,18 @@ def tlc_checked(what, r):
     return r
 
 
-def lin_ids(r):
-    return set(int(s[4:]) for s in r.prints if s.startswith("LIN "))
+SMALL_JVM = "2g -XX:ParallelGCThreads=2"      # passed as lib.tlc(heap=...): small runs need no 16 GC threads
 
 
-def validate_histories(path, cfg, what, workers=2):
-    """TLC linearisation search over a file of histories; returns the set of linearizable ids."""
-    r = lib.tlc("Trace_Locks", cfg, workers=workers, timeout=900, dfs=True, heap="3g",
-                extra_files=[("trace_locks.ndjson", path)])
+def validate_histories(path, what, both=True, workers=2):
+    """TLC linearisation search over a file of histories (one per line). Returns (ids linearizable with
+    ReleaseAll atomic, ids linearizable with ReleaseAll lock by lock, TLC result)."""
+    r = lib.tlc("Trace_Locks", "Trace_Locks_both.cfg" if both else "Trace_Locks_strict.cfg", workers=workers,
+                timeout=1800, dfs=True, heap=SMALL_JVM, extra_files=[("trace_locks.ndjson", path)])
     lib.tlc_ok(r, what)
-    return lin_ids(r), r
+    strict = set(int(s[4:]) for s in r.prints if s.startswith("LIN "))
+    split = set(int(s[5:]) for s in r.prints if s.startswith("LINS "))
+    return strict, split, r
 
 
 def behaviours_of(trs):
@@ -168,8 +170,14 @@ def binding_selftest(binp, sc, behs, sessions):
     if beh is None:
         raise lib.Inconclusive("no behaviour long enough for the binding self-test")
     # (a) drop a step of a session that moves it to another Yield point and is followed by another step of it
-    k = next((i for i, t in enumerate(beh[:-1]) if t["act"]["at"] != t["act"]["nxt"] and t["act"]["at"] != "idle"
-              and any(u["act"]["s"] == t["act"]["s"] for u in beh[i + 1:])), None)
+    # (a load that leads to a CAS: it changes nothing observable, so the first thing the replay can notice
+    # is that the session is not parked where the next step of the schedule expects it)
+    k = None
+    for beh in (b for b in behs if len(b) >= 12):
+        k = next((i for i, t in enumerate(beh[:-1]) if t["act"]["at"].endswith(".load") and t["act"]["nxt"].endswith(".cas")
+                  and any(u["act"]["s"] == t["act"]["s"] for u in beh[i + 1:])), None)
+        if k is not None:
+            break
     if k is None:
         raise lib.Inconclusive("binding self-test: no droppable step")
     dropped = [dict(t, step=j + 1) for j, t in enumerate(beh[:k] + beh[k + 1:])]
@@ -193,10 +201,12 @@ def binding_selftest(binp, sc, behs, sessions):
 # ---------------------------------------------------------------- the strict reading of ReleaseAll
 
 def relall_witness(binp, sc, v, stats):
-    """Known finding C38-relall-not-atomic: model counterexample -> real code -> real history -> TLC."""
+    """Known finding C38-relall-not-atomic, first half: the shortest history of the MODEL that has no
+    linearisation with ReleaseAll atomic (exact monitor) is replayed on the real code under the gate.
+    Returns the REAL history recorded there (judged by Trace_Locks together with the free histories)."""
     wd = os.path.join(sc, "relall")
     os.makedirs(wd)
-    r = lib.tlc("LockSubsystem", "LockSubsystem_relall.cfg", workdir=wd, workers=4, timeout=600, heap="2g",
+    r = lib.tlc("LockSubsystem", "LockSubsystem_relall.cfg", workdir=wd, workers=4, timeout=600, heap=SMALL_JVM,
                 extra_args=["-noGenerateSpecTE", "-dumpTrace", "json", "cex.json"])
     if r.error:
         raise lib.Inconclusive("relall monitor run: %s" % r.error)
@@ -204,42 +214,47 @@ def relall_witness(binp, sc, v, stats):
     if "MonitorOK" not in r.invariant_violated:
         lib.tlc_ok(r, "relall monitor run")       # any other violation is a problem of the model
         stats["relall_witness"] = "the model has no non-linearizable history within LockSubsystem_relall.cfg"
-        return
+        return None
     trs = cex_to_trs(os.path.join(wd, "cex.json"))
     if not trs:
         raise lib.Inconclusive("empty counterexample")
     bpath = os.path.join(sc, "witness.ndjson")
     lib.write_ndjson(bpath, trs)
     hists = []
-    for k in (1, 2):       # twice, in fresh processes: the real history must be the same
+    for k in (1, 2):       # twice, each alone in a fresh process: the real history must be the same
         hp = os.path.join(sc, "witness-h%d.ndjson" % k)
         rep = gated(binp, bpath, "1,2", history=hp)
         if rep["mismatches"]:
             # the real code does not follow the specification on this schedule: an ordinary mismatch
             for mm in rep["mismatches"]:
-                mm = confirm_gated(binp, sc, trs, mm, "1,2", "w")
-                v.add("witness/" + mm["signature"], mm)
-            return
+                v.add("witness/" + mm["signature"], confirm_gated(binp, sc, trs, mm, "1,2", "w"))
+            return None
         hists.append(lib.read_ndjson(hp))
-    if hists[0] != hists[1]:
+    if hists[0] != hists[1] or len(hists[0]) != 1:
         raise lib.Inconclusive("witness replay is not deterministic")
-    hp = os.path.join(sc, "witness-h1.ndjson")
-    strict, _ = validate_histories(hp, "Trace_Locks_strict.cfg", "witness strict", workers=1)
-    split, _ = validate_histories(hp, "Trace_Locks_split.cfg", "witness split", workers=1)
     h = hists[0][0]
-    stats["relall_witness"] = {"schedule_steps": len(trs), "real_history": h["calls"],
-                               "linearizable_relall_atomic": h["h"] in strict,
-                               "linearizable_relall_lock_by_lock": h["h"] in split}
-    if h["h"] in strict:
+    h["h"] = 0
+    stats["relall_witness"] = {"schedule": ["s%d %s(%s) %s>%s%s" % (t["act"]["s"], t["act"]["op"]["k"], t["act"]["tgt"], t["act"]["at"], t["act"]["nxt"],
+                                                                   " = %s/%d" % (t["act"]["ret"]["s"], t["act"]["ret"]["i"]) if t["act"]["nxt"] == "idle" else "")
+                                            for t in trs],
+                               "real_history": h["calls"]}
+    return h
+
+
+def judge_witness(h, strict, split, v, stats):
+    w = stats["relall_witness"]
+    w["linearizable_relall_atomic"] = 0 in strict
+    w["linearizable_relall_lock_by_lock"] = 0 in split
+    if 0 in strict:
         raise lib.Inconclusive("the exact monitor rejects the model history but Trace_Locks linearises the real one: %s" % h)
-    sig = "nonlinearizable/relall-not-atomic" if h["h"] in split else "nonlinearizable/other"
-    v.add("witness/" + sig, {"schedule": [t["act"] for t in trs], "real_history": h["calls"],
+    sig = "nonlinearizable/relall-not-atomic" if 0 in split else "nonlinearizable/other"
+    v.add("witness/" + sig, {"schedule": w["schedule"], "real_history": h["calls"],
                               "what": "real replies recorded under the gate scheduler have no linearisation against LockAtomic"})
 
 
 # ---------------------------------------------------------------- binding B
 
-def free_histories(binr, sc, v, n, stats):
+def free_histories(binr, sc, v, n, stats, witness):
     hp = os.path.join(sc, "free.ndjson")
     rep = lib.run_report([binr, "-mode", "free", "-n", str(n), "-history", hp, "-seed", str(lib.seed()),
                           "-sessions", SESS3, "-names", ",".join(NAMES)], timeout=1800)
@@ -258,11 +273,13 @@ def free_histories(binr, sc, v, n, stats):
         f["calls"][-1].update(rs="used", ri=2)
         forged.append(f)
     bp = os.path.join(sc, "free-batch.ndjson")
-    lib.write_ndjson(bp, hists + forged)
-    ok, r = validate_histories(bp, "Trace_Locks_strict.cfg", "free histories", workers=4)
-    if any(f["h"] in ok for f in forged):
+    lib.write_ndjson(bp, ([witness] if witness else []) + hists + forged)
+    strict, split, r = validate_histories(bp, "recorded histories", both=True, workers=4)
+    if any(f["h"] in strict for f in forged):
         raise lib.Inconclusive("binding self-test: a history with a falsified observation was linearised")
-    missing = [h for h in hists if h["h"] not in ok]
+    if witness:
+        judge_witness(witness, strict, split, v, stats)
+    missing = [h for h in hists if h["h"] not in strict]
     stats["free"] = {"histories": n, "calls": rep["cases"], "overlapping": rep["extra"]["histories_with_overlapping_calls"],
                      "by_kind": rep["extra"]["by_kind"], "timeouts": rep["extra"]["timeouts"],
                      "failed_acquires": rep["extra"]["failed_acquires"],
@@ -270,15 +287,14 @@ def free_histories(binr, sc, v, n, stats):
     if abandoned and not missing:
         stats["free_problem"] = "%d free-running histories had calls that did not return within the recording deadline, yet all recorded histories linearise" % abandoned
     if missing:
-        # re-validate the rejected histories alone (fresh TLC), then classify with the lock-by-lock reading
+        # re-validate the rejected histories alone (fresh TLC) and classify them with the lock-by-lock reading
         mp = os.path.join(sc, "free-rejected.ndjson")
         lib.write_ndjson(mp, missing)
-        ok2, _ = validate_histories(mp, "Trace_Locks_strict.cfg", "rejected histories, alone", workers=1)
-        if ok2:
-            raise lib.Inconclusive("histories rejected in the batch are accepted alone: %s" % sorted(ok2))
-        ok3, _ = validate_histories(mp, "Trace_Locks_split.cfg", "rejected histories, lock-by-lock", workers=1)
+        strict2, split2, _ = validate_histories(mp, "rejected histories, alone", both=True, workers=1)
+        if strict2:
+            raise lib.Inconclusive("histories rejected in the batch are accepted alone: %s" % sorted(strict2))
         for h in missing:
-            sig = "free/nonlinearizable/relall-not-atomic" if h["h"] in ok3 else "free/nonlinearizable/other"
+            sig = "free/nonlinearizable/relall-not-atomic" if h["h"] in split2 else "free/nonlinearizable/other"
             v.add(sig, {"real_history": h["calls"], "what": "recorded free-running history has no linearisation against LockAtomic"})
     return rep, len(hists)
 
@@ -296,19 +312,20 @@ def check(tier):
     with lib.Scratch() as sc, cf.ThreadPoolExecutor(max_workers=4) as ex:
         # -- 1. the specification alone (background while the code is exercised)
         cfg = "LockSubsystem_quick.cfg" if quick else "LockSubsystem_thorough.cfg"
-        f_mc = ex.submit(lib.tlc, "LockSubsystem", cfg, workers=W, timeout=3000, coverage=not quick, heap="12g")
+        f_mc = ex.submit(lib.tlc, "LockSubsystem", cfg, workers=W, timeout=3000, coverage=not quick, heap="12g -XX:ParallelGCThreads=4")
         f_live = ex.submit(lib.tlc, "LockSubsystem", "LockSubsystem_live.cfg" if quick else "LockSubsystem_live2.cfg",
-                           workers=2, timeout=3000, heap="4g")
+                           workers=2, timeout=3000, heap="4g -XX:ParallelGCThreads=2")
         f_mon = ex.submit(lib.tlc, "LockSubsystem", "LockSubsystem_mon1q.cfg" if quick else "LockSubsystem_mon1.cfg",
-                          workers=2, timeout=3000, heap="4g")
+                          workers=2, timeout=3000, heap="4g -XX:ParallelGCThreads=2")
 
         # -- 4. strict ReleaseAll: the known finding's witness
-        relall_witness(binp, sc, v, stats)
+        witness = relall_witness(binp, sc, v, stats)
+        lib.log("[C38] relall witness done at %.0fs" % (time.time() - t0))
 
         # -- 2. binding A: simulated behaviours under the gate
         nsim, depth = (300, 60) if quick else (6000, 80)
         rs = lib.tlc("LockSubsystem", "LockSubsystem_sim.cfg", workers=1, timeout=1800, simulate="num=%d" % nsim,
-                     depth=depth, tlc_seed=lib.seed(), heap="3g")
+                     depth=depth, tlc_seed=lib.seed(), heap=SMALL_JVM if quick else "4g")
         lib.tlc_ok(rs, "simulation")
         trs = rs.jsons("TR")
         behs = behaviours_of(trs)
@@ -322,6 +339,8 @@ def check(tier):
         for k, mm in enumerate(rep["mismatches"][:10]):
             v.add("gated/" + mm["signature"], confirm_gated(binp, sc, trs, mm, SESS3, "s%d" % k))
         binding_selftest(binp, sc, behs, SESS3)
+        lib.log("[C38] gated replay done at %.0fs: %d behaviours, %d steps, %d non-trivial, %d mismatches"
+                % (time.time() - t0, len(behs), rep["cases"], rep["nontrivial"], len(rep["mismatches"])))
         floor = nsim // 4
         vacuous = []          # reasons why a PASS would not mean much (irrelevant once a violation is reproduced)
         if rep["nontrivial"] < floor or rep["extra"]["failed_cas_steps"] < floor // 4:
@@ -330,7 +349,7 @@ def check(tier):
         # -- 2b. thorough: EVERY transition of a small configuration, by a path cover of the dumped graph
         cover = None
         if not quick:
-            rd = lib.tlc("LockSubsystem", "LockSubsystem_dump.cfg", workers=4, timeout=3000, heap="6g")
+            rd = lib.tlc("LockSubsystem", "LockSubsystem_dump.cfg", workers=4, timeout=3000, heap="6g -XX:ParallelGCThreads=4")
             lib.tlc_ok(rd, "transition dump")
             txs = rd.jsons("TX")
             if len(txs) < 10000:
@@ -347,7 +366,8 @@ def check(tier):
 
         # -- 3. binding B: free-running histories on the -race build
         nfree = 300 if quick else 5000
-        frep, nh = free_histories(binr, sc, v, nfree, stats)
+        frep, nh = free_histories(binr, sc, v, nfree, stats, witness)
+        lib.log("[C38] free histories done at %.0fs: %s" % (time.time() - t0, json.dumps(stats.get("free"))))
         if frep["extra"]["histories_with_overlapping_calls"] < nfree // 4:
             vacuous.append("only %d of %d free histories have overlapping calls" % (frep["extra"]["histories_with_overlapping_calls"], nfree))
         if stats.get("free_problem"):
@@ -357,6 +377,8 @@ def check(tier):
         r_mc = tlc_checked("exhaustive " + cfg, f_mc.result())
         r_live = tlc_checked("liveness", f_live.result())
         r_mon = tlc_checked("exact monitor, one name", f_mon.result())
+        lib.log("[C38] TLC done at %.0fs: exhaustive %d distinct in %.0fs, liveness %d in %.0fs, monitor %d in %.0fs"
+                % (time.time() - t0, r_mc.distinct, r_mc.wall, r_live.distinct, r_live.wall, r_mon.distinct, r_mon.wall))
         if not quick:
             z = [a for a in r_mc.coverage_zero() if a not in ("Init",)]
             if z:
@@ -402,12 +424,12 @@ def replay(path):
     det = d["first"]["detail"]
     binp = lib.build("c38")
     with lib.Scratch() as sc:
-        if "real_history" in det and "schedule" not in det:
+        if "real_history" in det:
             hp = os.path.join(sc, "h.ndjson")
             lib.write_ndjson(hp, [{"h": 1, "calls": det["real_history"]}])
-            ok, _ = validate_histories(hp, "Trace_Locks_strict.cfg", "replay", workers=1)
-            print("history linearizable: %s" % (1 in ok))
-            return 0 if 1 in ok else 1
+            strict, split, _ = validate_histories(hp, "replay", both=True, workers=1)
+            print("history linearizable with ReleaseAll atomic: %s, lock by lock: %s" % (1 in strict, 1 in split))
+            return 0 if 1 in strict else 1
         recs = det.get("behaviour_records")
         if not recs:
             print("nothing to replay in %s" % path)
